@@ -199,12 +199,12 @@ func (g *projGen) method(ci, mi int, prefixParams []string, types []pType, file 
 		m.Results = []string{vt, "error"}
 		if r.Chance(1, 3) {
 			// the annotated code only relabels the success response: a returned value is documented under 204 as well
-			m.Annots = append(m.Annots, pAnnot{Name: "Response", Value: rng.Pick(r, []string{"200", "201", "204", "202"}), Desc: "ok"})
+			m.Annots = append(m.Annots, pAnnot{Name: "Response", Value: rng.Pick(r, []string{"200", "201", "204", "202", "303", "304", "307", "102", "226"}), Desc: "ok"})
 		}
 	} else {
 		m.Results = []string{"error"}
 		if r.Chance(1, 4) {
-			m.Annots = append(m.Annots, pAnnot{Name: "Response", Value: "204", Desc: "done"})
+			m.Annots = append(m.Annots, pAnnot{Name: "Response", Value: rng.Pick(r, []string{"204", "204", "205", "304", "202"}), Desc: "done"})
 		}
 	}
 	if r.Chance(1, 40) {
@@ -298,12 +298,14 @@ func (g *projGen) perturb(m *pMethod, structNames []string) string {
 		}
 	case "retype-slice":
 		i := rng.Pick(r, bindIdx)
-		if m.Annots[i].Name == "Body" || m.Annots[i].Name == "Query" {
+		// a slice, or a fixed-size array (iterable all the same): refused outside a query or a body, fine inside
+		ty := rng.Pick(r, []string{"[]string", "[]string", "[2]string", "[3]int", "*[]string"})
+		if (m.Annots[i].Name == "Body" || m.Annots[i].Name == "Query") && !strings.HasPrefix(ty, "[2]") {
 			return "none"
 		}
 		for pi := range m.Params {
 			if m.Params[pi].Name == m.Annots[i].Value {
-				m.Params[pi].Type = "[]string"
+				m.Params[pi].Type = ty
 			}
 		}
 	case "bad-alias":
@@ -677,6 +679,24 @@ func genProject(r *rng.R, nPerturb int) (pProject, []string) {
 		m0 := &p.Controllers[0].Methods[0]
 		m0.Results = []string{"other.Thing", m0.Results[len(m0.Results)-1]}
 	}
+	if os.Getenv("VH_DETERMINISM") != "" && nPerturb == 0 && len(p.Config.Globs) == 0 && r.Chance(2, 3) {
+		// C13: controllers of TWO globbed packages, each with declared types of its own in its signatures - the order in
+		// which packages, controllers and receivers are reduced decides the import serials of the routes file
+		p.Types = append(p.Types,
+			pType{Kind: "struct", Name: "Doc", Pkg: "other", File: "docs.go", Fields: []pField{{Name: "Title", Type: "string", Tag: `json:"title"`}}},
+			pType{Kind: "enum", Name: "Kind", Pkg: "other", File: "docs.go", Base: "string", Consts: [][2]string{{"KindA", `"a"`}, {"KindB", `"b"`}}})
+		dc := pController{Name: "DocsCtl", Pkg: "other", File: "docs.go", Annots: []pAnnot{{Name: "Tag", Value: "Docs"}, {Name: "Route", Value: "/docs"}}}
+		m1 := pMethod{Name: "OneDoc", File: "docs.go", Params: []pParam{{Name: "kind", Type: "Kind"}}, Results: []string{"Doc", "error"},
+			Annots: []pAnnot{{Name: "Method", Value: "GET"}, {Name: "Route", Value: "/one"}, {Name: "Query", Value: "kind"}}}
+		m2 := pMethod{Name: "NewDoc", File: "docs2.go", Params: []pParam{{Name: "d", Type: "Doc"}}, Results: []string{"error"},
+			Annots: []pAnnot{{Name: "Method", Value: "POST"}, {Name: "Route", Value: "/new"}, {Name: "Body", Value: "d"}}}
+		if p.Config.Enforce {
+			m1.Annots = append(m1.Annots, g.security()...)
+			m2.Annots = append(m2.Annots, g.security()...)
+		}
+		dc.Methods = []pMethod{m1, m2}
+		p.Controllers = append(p.Controllers, dc)
+	}
 	if os.Getenv("VH_GENERIC") != "" && r.Chance(2, 3) {
 		// C14 only: a generic struct instantiated with a declared struct, an enum or a builtin as a route's result.
 		// Whether the tool supports this or reports an error, it must not crash.
@@ -725,6 +745,20 @@ func genProject(r *rng.R, nPerturb int) (pProject, []string) {
 		}
 		gm.Annots = append(gm.Annots, pAnnot{Name: "Query", Value: "limit"}, pAnnot{Name: "Header", Value: "trace"})
 		gm.Params = append(gm.Params, pParam{Name: "limit", Type: "int"}, pParam{Name: "trace", Type: "int"})
+		for _, a := range p.Controllers[ci].Annots {
+			if a.Name != "Route" {
+				continue
+			}
+			// the variables of the controller's prefix are this route's as well
+			for _, seg := range strings.Split(a.Value, "/") {
+				if strings.HasPrefix(seg, "{") && strings.HasSuffix(seg, "}") {
+					n := strings.Trim(seg, "{}")
+					gm.Annots = append(gm.Annots, pAnnot{Name: "Path", Value: n})
+					gm.Params = append(gm.Params, pParam{Name: n, Type: "string"})
+				}
+			}
+			break
+		}
 		if p.Config.Enforce {
 			gm.Annots = append(gm.Annots, g.security()...)
 		}
@@ -841,7 +875,7 @@ func genProject(r *rng.R, nPerturb int) (pProject, []string) {
 		p.Controllers[ci].Methods = append(p.Controllers[ci].Methods, twin)
 		applied = append(applied, "path-conflict")
 	}
-	if nPerturb > 0 {
+	if nPerturb > 0 && r.Chance(1, 4) {
 		// a method route that opens with a {param} (no leading slash): bind it under ANOTHER name - the
 		// template variable then has no matching path parameter and the project must be refused
 		for ci := range p.Controllers {
@@ -887,7 +921,14 @@ func genProject(r *rng.R, nPerturb int) (pProject, []string) {
 	for k := 0; k < nPerturb; k++ {
 		ci := r.Intn(len(p.Controllers))
 		mi := r.Intn(len(p.Controllers[ci].Methods))
-		applied = append(applied, g.perturb(&p.Controllers[ci].Methods[mi], structNames))
+		k := g.perturb(&p.Controllers[ci].Methods[mi], structNames)
+		for try := 0; k == "none" && try < 4; try++ {
+			// the chosen defect does not fit this method: another one (no budget is spent on "none")
+			ci, mi = r.Intn(len(p.Controllers)), 0
+			mi = r.Intn(len(p.Controllers[ci].Methods))
+			k = g.perturb(&p.Controllers[ci].Methods[mi], structNames)
+		}
+		applied = append(applied, k)
 	}
 	return p, applied
 }
